@@ -6,15 +6,23 @@ package provider
 // This file lives in /verif and reaches the compiler only through an overlay.
 
 import (
+	"crypto/sha256"
 	"encoding/base64"
 	"fmt"
+	"hash"
 	"os"
 	"reflect"
 	"regexp"
 	"runtime"
+	"sort"
 	"strings"
+	"sync"
+	"sync/atomic"
 	"time"
+	"unsafe"
 )
+
+var _ hash.Hash
 
 type vrtVal struct {
 	S *string `json:"s,omitempty"` // base64 of the bytes
@@ -257,8 +265,145 @@ func vrtFill(v reflect.Value, name string) {
 	}
 }
 
-func vrtEpoch()            {}
-func vrtSharedWrites() int { return 0 }
+// vrtEpoch: everything allocated before this call is provider-lifetime state.
+// Natively the state reachable from the provider (vrtEpochRoot) is digested
+// here and again in vrtSharedWrites: a difference is a write to it.
+func vrtEpoch() {
+	vrtEpochDigest = ""
+	if vrtEpochRoot != nil {
+		vrtEpochDigest = vrtStateDigest(vrtEpochRoot)
+	}
+}
+
+var vrtEpochRoot interface{}
+var vrtEpochDigest string
+
+func vrtSharedWrites() int {
+	if vrtEpochRoot != nil && vrtStateDigest(vrtEpochRoot) != vrtEpochDigest {
+		return 1
+	}
+	return 0
+}
+
+const vrtModulePath = "github.com/zitadel/saml"
+
+// vrtStateDigest hashes the module-typed state reachable from root: structs of
+// the module's own types field by field (exported or not), pointers, slices,
+// maps, strings and numbers. Values of foreign named struct types (templates,
+// routers, keys, mutexes) are library state and are skipped - except sync.Map
+// and atomic.Value, whose content is application data. The storage (a harness
+// object behind an interface) is skipped.
+func vrtStateDigest(root interface{}) string {
+	h := sha256.New()
+	seen := map[uintptr]bool{}
+	var walk func(v reflect.Value, depth int)
+	walk = func(v reflect.Value, depth int) {
+		if depth > 40 {
+			return
+		}
+		switch v.Kind() {
+		case reflect.Ptr:
+			if v.IsNil() {
+				h.Write([]byte("nil;"))
+				return
+			}
+			if seen[v.Pointer()] {
+				h.Write([]byte("seen;"))
+				return
+			}
+			seen[v.Pointer()] = true
+			h.Write([]byte("ptr:"))
+			walk(v.Elem(), depth+1)
+		case reflect.Interface:
+			if v.IsNil() {
+				h.Write([]byte("nil;"))
+				return
+			}
+			e := v.Elem()
+			t := e.Type()
+			for t.Kind() == reflect.Ptr {
+				t = t.Elem()
+			}
+			if strings.HasPrefix(t.Name(), "vrt") {
+				return // harness objects (the storage stub)
+			}
+			h.Write([]byte("iface:" + e.Type().String() + ":"))
+			walk(e, depth+1)
+		case reflect.Struct:
+			t := v.Type()
+			if t.PkgPath() == "sync" && t.Name() == "Map" && v.CanAddr() {
+				m := (*sync.Map)(unsafe.Pointer(v.UnsafeAddr()))
+				var items []string
+				m.Range(func(k, val interface{}) bool {
+					items = append(items, fmt.Sprintf("%v=%s", k, vrtStateDigest(val)))
+					return true
+				})
+				sort.Strings(items)
+				h.Write([]byte("syncmap:" + strings.Join(items, ",") + ";"))
+				return
+			}
+			if t.PkgPath() == "sync/atomic" && t.Name() == "Value" && v.CanAddr() {
+				av := (*atomic.Value)(unsafe.Pointer(v.UnsafeAddr()))
+				if val := av.Load(); val != nil {
+					h.Write([]byte("atomic:" + vrtStateDigest(val) + ";"))
+				}
+				return
+			}
+			if t.PkgPath() != "" && !strings.HasPrefix(t.PkgPath(), vrtModulePath) {
+				return
+			}
+			h.Write([]byte("struct " + t.String() + "{"))
+			for i := 0; i < v.NumField(); i++ {
+				h.Write([]byte(t.Field(i).Name + ":"))
+				walk(v.Field(i), depth+1)
+			}
+			h.Write([]byte("}"))
+		case reflect.Slice:
+			if v.IsNil() {
+				h.Write([]byte("nil;"))
+				return
+			}
+			fallthrough
+		case reflect.Array:
+			h.Write([]byte(fmt.Sprintf("[%d:", v.Len())))
+			for i := 0; i < v.Len(); i++ {
+				walk(v.Index(i), depth+1)
+			}
+			h.Write([]byte("]"))
+		case reflect.Map:
+			if v.IsNil() {
+				h.Write([]byte("nil;"))
+				return
+			}
+			var items []string
+			it := v.MapRange()
+			for it.Next() {
+				sub := sha256.New()
+				old := h
+				h = sub
+				walk(it.Key(), depth+1)
+				h.Write([]byte("=>"))
+				walk(it.Value(), depth+1)
+				h = old
+				items = append(items, fmt.Sprintf("%x", sub.Sum(nil)))
+			}
+			sort.Strings(items)
+			h.Write([]byte("map{" + strings.Join(items, ",") + "}"))
+		case reflect.String:
+			h.Write([]byte(fmt.Sprintf("%q;", v.String())))
+		case reflect.Bool:
+			h.Write([]byte(fmt.Sprintf("%v;", v.Bool())))
+		case reflect.Int, reflect.Int8, reflect.Int16, reflect.Int32, reflect.Int64:
+			h.Write([]byte(fmt.Sprintf("%d;", v.Int())))
+		case reflect.Uint, reflect.Uint8, reflect.Uint16, reflect.Uint32, reflect.Uint64, reflect.Uintptr:
+			h.Write([]byte(fmt.Sprintf("%d;", v.Uint())))
+		case reflect.Float32, reflect.Float64:
+			h.Write([]byte(fmt.Sprintf("%v;", v.Float())))
+		}
+	}
+	walk(reflect.ValueOf(root), 0)
+	return fmt.Sprintf("%x", h.Sum(nil))
+}
 
 // vrtTry runs f and reports whether it panicked; the panic site (function and
 // source line text of the innermost frame inside the module) is remembered.
